@@ -16,6 +16,7 @@ mod record;
 mod text;
 mod util;
 mod verdict;
+mod xadd;
 
 use serde_json::{json, Value};
 use std::collections::BTreeMap;
@@ -44,6 +45,7 @@ fn main() {
         "fuzz-asm" => cmd_fuzz_asm(&args[2..]),
         "encs" => cmd_encs(&args[2..]),
         "helpers" => cmd_helpers(&args[2..]),
+        "xadd" => cmd_xadd(&args[2..]),
         other => {
             eprintln!("unknown command {other}");
             2
@@ -649,5 +651,46 @@ fn cmd_helpers(args: &[String]) -> i32 {
     let report = json!({"records": recs.len(), "pass": pass, "fail": nfail, "failures": fails, "samples": samples});
     std::fs::write(report_path, serde_json::to_string(&report).unwrap()).unwrap();
     println!("helpers: {} records, {} pass, {} fail", recs.len(), pass, nfail);
+    0
+}
+
+/// rv xadd --seed S --configs N --count C --out F: concurrent atomic-add stress, one event per configuration
+fn cmd_xadd(args: &[String]) -> i32 {
+    let seed: u64 = arg(args, "--seed").map(|s| s.parse().unwrap()).unwrap_or(1);
+    let n: usize = arg(args, "--configs").map(|s| s.parse().unwrap()).unwrap_or(12);
+    let count: u64 = arg(args, "--count").map(|s| s.parse().unwrap()).unwrap_or(20000);
+    let out = arg(args, "--out").expect("--out");
+    let mut r = Rng::new(seed ^ 0xc18);
+    let mixes: Vec<Vec<&str>> = vec![
+        vec!["interp", "interp"], vec!["jit", "jit"], vec!["cl", "cl"], vec!["interp", "jit"], vec!["interp", "cl"], vec!["jit", "cl"],
+        vec!["interp", "jit", "cl", "jit"], vec!["jit", "jit", "jit", "jit"], vec!["interp", "interp", "interp", "interp"],
+        vec!["interp", "jit", "cl", "interp", "jit", "cl", "jit", "cl"],
+        vec!["jit"; 16], vec!["interp", "jit", "cl", "jit", "interp", "cl", "jit", "jit", "cl", "interp", "jit", "cl", "jit", "interp", "cl", "jit"],
+    ];
+    let mut jobs = Vec::new();
+    for k in 0..n {
+        let mix = &mixes[k % mixes.len()];
+        let width = if (k / mixes.len() + k) % 2 == 0 { 4 } else { 8 };
+        let woff = *r.pick(&[8u64, 16, 24, 32, 40]) + if width == 4 && r.chance(1, 2) { 4 } else { 0 };
+        jobs.push(json!({"width": width, "count": count, "engines": mix, "word_offset": woff}));
+    }
+    let results = run_isolated(&jobs, 120000, xadd::run_config);
+    use std::io::Write;
+    let mut f = std::fs::File::create(out).unwrap();
+    let mut crashed = Vec::new();
+    let mut events = 0;
+    for (job, res) in jobs.iter().zip(results.iter()) {
+        match res {
+            ChildResult::Done(v) => {
+                writeln!(f, "{}", serde_json::to_string(v).unwrap()).unwrap();
+                events += 1;
+            }
+            ChildResult::Signal(s) => crashed.push(json!({"config": job, "how": format!("signal {s}")})),
+            ChildResult::Timeout => crashed.push(json!({"config": job, "how": "timeout"})),
+            ChildResult::Exit(c) => crashed.push(json!({"config": job, "how": format!("exit {c}")})),
+        }
+    }
+    std::fs::write(format!("{out}.summary.json"), serde_json::to_string(&json!({"configs": jobs.len(), "events": events, "crashed": crashed})).unwrap()).unwrap();
+    println!("xadd: {} configurations, {} events, {} crashed", jobs.len(), events, crashed.len());
     0
 }
